@@ -1,0 +1,53 @@
+//go:build verif
+
+package mdns
+
+import (
+	"github.com/enbility/go-avahi"
+	"github.com/enbility/ship-go/api"
+	"github.com/enbility/ship-go/util"
+)
+
+// What Start does, minus provider selection and the signal handler:
+// start the given provider, announce, and set the report callback.
+func (m *MdnsManager) VerifStartWithProvider(provider api.MdnsProviderInterface, cb api.MdnsReportInterface) error {
+	m.mdnsProvider = provider
+	_ = m.mdnsProvider.Start(true, m.processMdnsEntry)
+
+	if err := m.AnnounceMdnsEntry(); err != nil {
+		return err
+	}
+
+	m.report = cb
+
+	return nil
+}
+
+// The resolver callback handed to providers.
+func (m *MdnsManager) VerifResolveCB() api.MdnsResolveCB {
+	return m.processMdnsEntry
+}
+
+// Copy of the currently known entries.
+func (m *MdnsManager) VerifEntries() map[string]*api.MdnsEntry {
+	m.mux.Lock()
+	defer m.mux.Unlock()
+
+	result := make(map[string]*api.MdnsEntry)
+	for k, v := range m.entries {
+		newEntry := &api.MdnsEntry{}
+		util.DeepCopy[*api.MdnsEntry](v, newEntry)
+		result[k] = newEntry
+	}
+	return result
+}
+
+// Avahi provider using the given avahi server implementation.
+func NewAvahiProviderWithServer(ifaceIndexes []int32, server avahi.ServerInterface) *AvahiProvider {
+	return &AvahiProvider{
+		avServer:        server,
+		setupSuccessful: false,
+		ifaceIndexes:    ifaceIndexes,
+		serviceElements: make(map[string]map[string]string),
+	}
+}
